@@ -315,6 +315,21 @@ func (tr *TemplateRecord) unmarshalOpts(r *reader.Reader) error {
 	return nil
 }
 
+// recordLength returns the number of octets a data record described by the
+// template occupies.
+func (tr *TemplateRecord) recordLength() int {
+	var n int
+
+	for _, f := range tr.ScopeFieldSpecifiers {
+		n += int(f.Length)
+	}
+	for _, f := range tr.FieldSpecifiers {
+		n += int(f.Length)
+	}
+
+	return n
+}
+
 func (d *Decoder) decodeData(tr TemplateRecord) ([]DecodedField, error) {
 	var (
 		fields []DecodedField
@@ -435,8 +450,15 @@ func (d *Decoder) decodeSet(mem MemCache, msg *Message) error {
 		}
 	}
 
-	// the next set should be greater than 4 bytes otherwise that's padding
-	for err == nil && (int(setHeader.Length)-(d.reader.ReadCount()-startCount) > 4) && d.reader.Len() > 4 {
+	// A data flowset is exhausted once fewer octets are left than one record of its
+	// template occupies: whatever remains is padding (RFC 3954 5.3).
+	// For template and reserved flowsets, anything up to 4 bytes is padding.
+	minLen := 5
+	if setHeader.FlowSetID > 255 && err == nil {
+		minLen = tr.recordLength()
+	}
+
+	for err == nil && (int(setHeader.Length)-(d.reader.ReadCount()-startCount) >= minLen) && (setHeader.FlowSetID > 255 || d.reader.Len() > 4) {
 		if setId := setHeader.FlowSetID; setId == 0 || setId == 1 {
 			// Template record or template option record
 			tr := TemplateRecord{}
